@@ -7,6 +7,9 @@ import GlotaranProofs.Lemmas.C02
 import GlotaranProofs.Lemmas.C02Align
 import GlotaranProofs.Lemmas.C02Combine
 import GlotaranProofs.Lemmas.C02Length
+import GlotaranProofs.Lemmas.C02Bij
+import GlotaranProofs.Lemmas.C02BijLinked
+import GlotaranProofs.Lemmas.C02BijKron
 namespace Glotaran.C02
 open Glotaran.LinAlg
 
@@ -330,5 +333,182 @@ theorem unweighted_data (d : Dataset) (hw : d.weight = none) : d.weightedData = 
 example : objective {} [] = some [] := by decide
 example : Interval.contains ⟨.fin 3, .fin 1⟩ 2 = true := by decide
 example : (applyConstraintsAt [⟨false, "s2", none⟩] 1 ⟨["s1", "s2"], [[1, 2], [3, 4]]⟩).labels = ["s1"] := by decide
+
+/-! ### every data point enters the penalty vector exactly once
+
+Positions (Lemmas/C02Bij.lean, C02BijLinked.lean):
+* `offset ns k` — start of block `k` in a concatenation of blocks of sizes `ns`;
+* `ValidPoint g k m i` — dataset `k` of the group exists, `m` is one of its model indices, `i` one of its
+  global indices (`ValidPointL` the same for a list of datasets);
+* `posUnlinked g k m i = offset (nModel·nGlobal per dataset) k + i·nModel_k + m`;
+* `posLinked ds aligned axis k m i`: with `v` the aligned value of the dataset's global index `i`,
+  `offset (Σ stack sizes per aligned value) (index of v on the aligned axis) +
+   offset (stack sizes at v) (number of member datasets before k) + m`, where the stack sizes at `v`
+  are the model-axis sizes of the datasets that have `v` on their aligned axis, in dataset order. -/
+
+/-- **Unlinked group: the position map is a bijection** from the data points of the group onto the index
+    range of the residual part (whose length is `Σ nModel·nGlobal`, `group_penalty_length_unlinked`). -/
+theorem residual_positions_bijective_unlinked (g : Group) :
+    (∀ k m i, ValidPoint g k m i → posUnlinked g k m i < (g.datasets.map (fun d => d.nModel * d.nGlobal)).sum) ∧
+    (∀ k m i k' m' i', ValidPoint g k m i → ValidPoint g k' m' i' →
+      posUnlinked g k m i = posUnlinked g k' m' i' → k = k' ∧ m = m' ∧ i = i') ∧
+    (∀ p, p < (g.datasets.map (fun d => d.nModel * d.nGlobal)).sum →
+      ∃ k m i, ValidPoint g k m i ∧ posUnlinked g k m i = p) :=
+  posUnlinked_bij g
+
+/-- **Unlinked group: what sits at the position of data point `(k, m, i)`** — row `m` of the residual of
+    the least-squares problem of global index `i` of dataset `k`, whose data vector is column `i` of the
+    dataset's weighted data. -/
+theorem residual_entry_unlinked_spec (mi : ModelItems) (g : Group) (res pens : Vec)
+    (hl : g.linked = false) (hg : ∀ d ∈ g.datasets, d.gmcs = []) (hwf : ∀ d ∈ g.datasets, d.WF)
+    (h : groupPenaltyParts mi g = some (res, pens)) (k m i : Nat) (hv : ValidPoint g k m i) :
+    ∃ hk : k < g.datasets.length, ∃ ps c r, unlinkedProblems mi g.datasets[k] = some ps ∧ ∃ hi' : i < ps.length,
+      solveLS g.solver ps[i].reduced.m ps[i].data = some (c, r) ∧
+      ps[i].data = col g.datasets[k].weightedData i ∧ m < r.length ∧
+      res[posUnlinked g k m i]? = r[m]? :=
+  residual_entry_unlinked mi g res pens hl hg (fun d hd => (hwf d hd).weak) h k m i hv
+
+/-- two datasets (2 × 2 and 3 × 1): the seven data points go to the positions 0 … 6, dataset by dataset,
+    global index by global index -/
+example :
+    let g : Group :=
+      { linked := false, solver := .vp, tol := 0, method := .nearest,
+        datasets := [Length.exampleDataset,
+          { label := "e", globalAxis := [5], data := [[1], [2], [3]], weight := none, scale := none,
+            mcs := [], gmcs := [] }] }
+    ValidPoint g 1 2 0 ∧
+    [posUnlinked g 0 0 0, posUnlinked g 0 1 0, posUnlinked g 0 0 1, posUnlinked g 0 1 1,
+     posUnlinked g 1 0 0, posUnlinked g 1 1 0, posUnlinked g 1 2 0] = [0, 1, 2, 3, 4, 5, 6] := by
+  intro g
+  exact ⟨⟨by decide, by decide, by decide⟩, by decide⟩
+
+example : ∃ ps c r, unlinkedProblems {} Length.exampleDataset = some ps ∧ ∃ hi' : 1 < ps.length,
+    solveLS .vp ps[1].reduced.m ps[1].data = some (c, r) ∧ ([0, 0, 0, 0] : Vec)[posUnlinked Length.exampleGroup 0 1 1]? = r[1]? := by
+  obtain ⟨_, ps, c, r, h1, h2, h3, _, _, h5⟩ := residual_entry_unlinked_spec {} Length.exampleGroup _ _ rfl
+    (by intro d hd; simp only [Length.exampleGroup, List.mem_singleton] at hd; subst hd; rfl)
+    (by intro d hd; simp only [Length.exampleGroup, List.mem_singleton] at hd; subst hd
+        exact Length.exampleDataset_wf)
+    Length.exampleGroup_parts 0 1 1 ⟨by decide, by decide, by decide⟩
+  exact ⟨ps, c, r, h1, h2, h3, h5⟩
+
+/-- **The aligned global axis of a linked group is strictly increasing** (so every aligned value occurs once). -/
+theorem aligned_axis_strictly_increasing (aligned : List (List Rat)) :
+    (aligned.foldl sortedUnion []).Pairwise (· < ·) :=
+  alignedAxis_sorted aligned
+
+/-- **Linked group: the position map through the alignment tables is a bijection** from the data points
+    of the group onto the index range of the residual part: every column of every dataset is stacked
+    exactly once, in dataset order, at the aligned value its global index was aligned to.
+    Hypothesis: no global axis repeats a value. -/
+theorem residual_positions_bijective_linked (g : Group) (aligned : List (List Rat))
+    (hal : alignAxes (g.datasets.map (·.globalAxis)) g.tol g.method = some aligned)
+    (hax : ∀ d ∈ g.datasets, d.globalAxis.Nodup) :
+    (∀ k m i, ValidPointL g.datasets k m i →
+      posLinked g.datasets aligned (aligned.foldl sortedUnion []) k m i <
+        ((aligned.foldl sortedUnion []).map (fun v => (stackSizes g.datasets aligned v).sum)).sum) ∧
+    (∀ k m i k' m' i', ValidPointL g.datasets k m i → ValidPointL g.datasets k' m' i' →
+      posLinked g.datasets aligned (aligned.foldl sortedUnion []) k m i =
+        posLinked g.datasets aligned (aligned.foldl sortedUnion []) k' m' i' → k = k' ∧ m = m' ∧ i = i') ∧
+    (∀ p, p < ((aligned.foldl sortedUnion []).map (fun v => (stackSizes g.datasets aligned v).sum)).sum →
+      ∃ k m i, ValidPointL g.datasets k m i ∧
+        posLinked g.datasets aligned (aligned.foldl sortedUnion []) k m i = p) ∧
+    ((aligned.foldl sortedUnion []).map (fun v => (stackSizes g.datasets aligned v).sum)).sum =
+      (g.datasets.map (fun d => d.nModel * d.nGlobal)).sum := by
+  have T := tablesOK_of_alignAxes g aligned hal hax
+  exact ⟨fun k m i hv => posLinked_lt _ _ _ T k m i hv,
+    fun k m i k' m' i' hv hv' h => posLinked_inj _ _ _ T k m i k' m' i' hv hv' h,
+    fun p hp => posLinked_surj _ _ _ T p hp, total_eq_points _ _ _ T⟩
+
+/-- **Linked group: the residual part has one entry per data point, and what sits at the position of data
+    point `(k, m, i)`**: row `q` of the residual of the stacked least-squares problem of the aligned value
+    the point was aligned to, `q` = (model-axis sizes of the member datasets before `k`) + `m`; entry `q` of
+    that problem's data vector is the weighted data point `(k, m, i)`.
+    (`LinkedShapes`: rectangular data/weights, well-formed matrices, no repeated axis value.) -/
+theorem residual_entry_linked_spec (mi : ModelItems) (g : Group) (res pens : Vec) (aligned : List (List Rat))
+    (hl : g.linked = true) (h : groupPenaltyParts mi g = some (res, pens))
+    (hal : alignAxes (g.datasets.map (·.globalAxis)) g.tol g.method = some aligned)
+    (hsh : LinkedShapes g) :
+    res.length = (g.datasets.map (fun d => d.nModel * d.nGlobal)).sum ∧
+    ∀ k m i, ValidPointL g.datasets k m i →
+      ∃ ps t c r, linkedProblems mi g = some (aligned.foldl sortedUnion [], ps) ∧ ∃ ht : t < ps.length,
+        (aligned.foldl sortedUnion [])[t]? = some ((aligned.getD k []).getD i 0) ∧
+        solveLS g.solver ps[t].reduced.m ps[t].data = some (c, r) ∧
+        ps[t].data[offset (stackSizes g.datasets aligned ((aligned.getD k []).getD i 0))
+            (countBefore (fun e : Dataset × List Rat => e.2.contains ((aligned.getD k []).getD i 0))
+              (g.datasets.zip aligned) k) + m]? =
+          (col (g.datasets.getD k default).weightedData i)[m]? ∧
+        m < (col (g.datasets.getD k default).weightedData i).length ∧
+        res[posLinked g.datasets aligned (aligned.foldl sortedUnion []) k m i]? =
+          r[offset (stackSizes g.datasets aligned ((aligned.getD k []).getD i 0))
+            (countBefore (fun e : Dataset × List Rat => e.2.contains ((aligned.getD k []).getD i 0))
+              (g.datasets.zip aligned) k) + m]? ∧
+        offset (stackSizes g.datasets aligned ((aligned.getD k []).getD i 0))
+            (countBefore (fun e : Dataset × List Rat => e.2.contains ((aligned.getD k []).getD i 0))
+              (g.datasets.zip aligned) k) + m < r.length := by
+  obtain ⟨h1, h2⟩ := residual_entry_linked_lem mi g res pens aligned hl h hal hsh
+  refine ⟨?_, h2⟩
+  rw [h1]
+  exact total_eq_points _ _ _ (tablesOK_of_alignAxes g aligned hal hsh.axes)
+
+/-- 2 × 2 dataset on axis (0, 1) and weighted, scaled 3 × 2 dataset on axis (1, 2), sharing aligned value 1 -/
+private def bijGroup : Group :=
+  { linked := true, solver := .vp, tol := 0, method := .nearest,
+    datasets := [
+      { label := "a", globalAxis := [0, 1], data := [[1, 2], [2, 4]], weight := none, scale := none,
+        mcs := [⟨⟨["c"], .d2 [[1], [1]]⟩, none⟩], gmcs := [] },
+      { label := "b", globalAxis := [1, 2], data := [[4, 1], [6, 1], [9, 2]],
+        weight := some [[1, 2], [1, 1], [2, 1]], scale := some 2,
+        mcs := [⟨⟨["c", "e"], .d2 [[1, 0], [1, 1], [1, 2]]⟩, none⟩], gmcs := [] }] }
+
+/-- the hypotheses hold, the ten data points go to the ten positions 0 … 9 (dataset "b", global index 0 —
+    aligned value 1 — is stacked below dataset "a": positions 4, 5, 6), the group is solved -/
+example :
+    alignAxes (bijGroup.datasets.map (·.globalAxis)) bijGroup.tol bijGroup.method = some [[0, 1], [1, 2]] ∧
+    (∀ d ∈ bijGroup.datasets, d.globalAxis.Nodup) ∧
+    ([[0, 1], [1, 2]] : List (List Rat)).foldl sortedUnion [] = [0, 1, 2] ∧
+    ValidPointL bijGroup.datasets 1 2 0 ∧
+    (List.range 2).flatMap (fun i => (List.range 2).map (fun m =>
+      posLinked bijGroup.datasets [[0, 1], [1, 2]] [0, 1, 2] 0 m i)) = [0, 1, 2, 3] ∧
+    (List.range 2).flatMap (fun i => (List.range 3).map (fun m =>
+      posLinked bijGroup.datasets [[0, 1], [1, 2]] [0, 1, 2] 1 m i)) = [4, 5, 6, 7, 8, 9] ∧
+    (groupPenaltyParts {} bijGroup).map (·.1.length) = some 10 := by
+  refine ⟨by decide +kernel, by decide +kernel, by decide +kernel,
+    ⟨by decide, by decide, by decide⟩, by decide +kernel, by decide +kernel, by decide +kernel⟩
+
+/-! ### full model: the Kronecker structure, entry by entry -/
+
+/-- **`full_model_kron`**: for a dataset with a global model (global matrix `G`, index independent) the
+    matrix and data given to the solver are, in the flattening order of `data.T.flatten()`
+    (row `g·nModel + m`, column `j·nClp + l`):
+    `A[g·nModel + m][j·nClp + l] = weight[m][g] · G[g][j] · M_g[m][l]`   (`M_g = matrixAt lm nGlobal g`),
+    `y[g·nModel + m] = data[m][g] · weight[m][g]`   (weight `1` for an unweighted dataset). -/
+theorem full_model_kron (d : Dataset) (lm gm : LMat) (G a : Mat) (y : Vec)
+    (hlm : datasetMatrix d.mcs = some lm) (hgm : datasetMatrix d.gmcs = some gm) (hGb : gm.body = .d2 G)
+    (h : fullModelProblem d = some (a, y))
+    (hok : C03.LMatOK d.nModel d.nGlobal lm) (hd : C03.DataOK d)
+    (hG : G.length = d.nGlobal) (hGw : ∀ r ∈ G, r.length = gm.labels.length)
+    (g m j l : Nat) (hg : g < d.nGlobal) (hm : m < d.nModel) (hj : j < gm.labels.length) (hl : l < lm.labels.length) :
+    ∃ grow row ω yv, G[g]? = some grow ∧ (C03.matrixAt lm d.nGlobal g)[m]? = some row ∧
+      C03.entry? d.data m g = some yv ∧
+      (match (generalizing := false) d.weight with | none => ω = 1 | some w => C03.entry? w m g = some ω) ∧
+      C03.entry? a (g * d.nModel + m) (j * lm.labels.length + l) = some (ω * (grow.getD j 0 * row.getD l 0)) ∧
+      y[g * d.nModel + m]? = some (yv * ω) :=
+  full_model_kron_lem d lm gm G a y hlm hgm hGb h hok hd hG hGw g m j l hg hm hj hl
+
+/-- 2 × 3 weighted data, two compartments, two global compartments: row 5 = (g, m) = (2, 1), column 2 =
+    (j, l) = (1, 0): `1 · G[2][1] · M[1][0] = 5 · 3`; row 3 = (1, 1) carries the weight 3 -/
+example :
+    let d : Dataset :=
+      { label := "f", globalAxis := [0, 1, 2], data := [[1, 2, 3], [4, 5, 6]], weight := some [[1, 1, 2], [1, 3, 1]],
+        scale := none, mcs := [⟨⟨["s1", "s2"], .d2 [[1, 2], [3, 4]]⟩, none⟩],
+        gmcs := [⟨⟨["g1", "g2"], .d2 [[1, 0], [1, 1], [2, 5]]⟩, none⟩] }
+    fullModelProblem d = some ([[1, 2, 0, 0], [3, 4, 0, 0], [1, 2, 1, 2], [9, 12, 9, 12], [4, 8, 10, 20], [6, 8, 15, 20]],
+      [1, 4, 2, 15, 6, 6]) ∧
+    C03.LMatOK d.nModel d.nGlobal ⟨["s1", "s2"], .d2 [[1, 2], [3, 4]]⟩ ∧
+    (∀ r ∈ d.data, r.length = d.nGlobal) := by
+  intro d
+  refine ⟨by decide +kernel, ⟨by decide, ?_⟩, by decide⟩
+  show _ ∧ _
+  exact ⟨by decide, by decide⟩
 
 end Glotaran.C02
